@@ -91,7 +91,7 @@ func versPatterns(k int) [][]string {
 
 func pad3(vs []string) []string {
 	out := append([]string{}, vs...)
-	for len(out) < 3 {
+	for len(out) < 4 {
 		out = append(out, "")
 	}
 	return out
@@ -133,9 +133,54 @@ func init() {
 								}
 								v := pad3(vs)
 								out = append(out, &Config{ID: fmt.Sprintf("C04/%s/%s/%s/%s", scheme, strings.Join(pat, " "), strings.Join(vs, "|"), probe), Pkg: zzhPkg, Func: "C04Vers",
-									Args: []ArgSpec{ArgStr(eco), ArgStr(scheme), ArgStr(strings.Join(pat, " ")), ArgTmpl(v[0]), ArgTmpl(v[1]), ArgTmpl(v[2]), ArgTmpl(probe)}})
+									Args: []ArgSpec{ArgStr(eco), ArgStr(scheme), ArgStr(strings.Join(pat, " ")), ArgTmpl(v[0]), ArgTmpl(v[1]), ArgTmpl(v[2]), ArgTmpl(v[3]), ArgTmpl(probe)}})
 							}
 						}
+					}
+				}
+				// k = 4: two complete lower/upper pairs (all 16 inclusiveness combinations); thorough adds
+				// one pair with an '=' point and a '!=' exclusion in every position
+				for _, pat := range versPatterns(4) {
+					nb, ne, nx := 0, 0, 0
+					for _, op := range pat {
+						switch {
+						case isLowerOp(op) || isUpperOp(op):
+							nb++
+						case op == "=":
+							ne++
+						default:
+							nx++
+						}
+					}
+					twoPairs := nb == 4 && isLowerOp(pat[0])
+					pairEqEx := nb == 2 && ne == 1 && nx == 1
+					if pairEqEx {
+						// the pair in the order lower, upper
+						first := ""
+						for _, op := range pat {
+							if isLowerOp(op) || isUpperOp(op) {
+								first = op
+								break
+							}
+						}
+						pairEqEx = isLowerOp(first)
+					}
+					if !twoPairs && !(pairEqEx && tier == "thorough") {
+						continue
+					}
+					// the four bounds are staggered by a concrete leading component (1, 3, 5, 7), the other
+					// components stay symbolic; the probe is fully symbolic and can hit every bound
+					vs := make([]string, 4)
+					for i := range vs {
+						vs[i] = strings.Replace(ts[0], "{d}", fmt.Sprint(2*i+1), 1)
+					}
+					probes := ts[:1]
+					if tier == "thorough" {
+						probes = ts
+					}
+					for _, probe := range probes {
+						out = append(out, &Config{ID: fmt.Sprintf("C04/%s/%s/%s/%s", scheme, strings.Join(pat, " "), strings.Join(vs, "|"), probe), Pkg: zzhPkg, Func: "C04Vers",
+							Args: []ArgSpec{ArgStr(eco), ArgStr(scheme), ArgStr(strings.Join(pat, " ")), ArgTmpl(vs[0]), ArgTmpl(vs[1]), ArgTmpl(vs[2]), ArgTmpl(vs[3]), ArgTmpl(probe)}})
 					}
 				}
 				for _, probe := range versionTemplates(eco, "s") {
@@ -145,7 +190,7 @@ func init() {
 			return out
 		},
 		Bounds: func(tier string) string {
-			return "11 schemes; every VERS-valid comparator sequence with k <= 3 constraints (k up to 8 in the property is NOT reached); versions and probes from 2 (quick) / 3 (thorough) small numeric templates per scheme; pypi restricted to final/post releases"
+			return "11 schemes; every VERS-valid comparator sequence with k <= 3 constraints, and for k = 4 the two-pair sequences (lower upper lower upper, all 16 inclusiveness combinations; thorough adds one pair with an = point and a != exclusion in every position); k = 5..8 of the property is NOT reached; versions and probes from 2 (quick) / 3 (thorough) small numeric templates per scheme; pypi restricted to final/post releases"
 		},
 		Assume: []string{"scheme -> ecosystem routing table is spec-side (DESIGN B.5)", "the interval denotation versSem in harness/pkg/zzh/vers.go is the spec-side reading of the VERS specification"},
 	})
@@ -244,9 +289,11 @@ func init() {
 					for pos := 0; pos <= len(base); pos++ {
 						if pos < len(base) {
 							out = append(out, &Config{ID: fmt.Sprintf("C17/corrupt/%s/%s/del@%d", scheme, base, pos), Pkg: zzhPkg, Func: "C17Corrupt", Args: []ArgSpec{ArgStr(base), ArgTmpl(probeT), ArgInt(0), ArgInt(int64(pos)), ArgStr("")}})
-							out = append(out, &Config{ID: fmt.Sprintf("C17/corrupt/%s/%s/rep@%d", scheme, base, pos), Pkg: zzhPkg, Func: "C17Corrupt", Args: []ArgSpec{ArgStr(base), ArgTmpl(probeT), ArgInt(1), ArgInt(int64(pos)), ArgTmpl("{A}")}})
+							out = append(out, &Config{ID: fmt.Sprintf("C17/corrupt/%s/%s/rep@%d", scheme, base, pos), Pkg: zzhPkg, Func: "C17Corrupt", Args: []ArgSpec{ArgStr(base), ArgTmpl(probeT), ArgInt(1), ArgInt(int64(pos)), ArgTmpl("{B}")}})
 						}
-						out = append(out, &Config{ID: fmt.Sprintf("C17/corrupt/%s/%s/ins@%d", scheme, base, pos), Pkg: zzhPkg, Func: "C17Corrupt", Args: []ArgSpec{ArgStr(base), ArgTmpl(probeT), ArgInt(2), ArgInt(int64(pos)), ArgTmpl("{A}")}})
+						out = append(out, &Config{ID: fmt.Sprintf("C17/corrupt/%s/%s/ins@%d", scheme, base, pos), Pkg: zzhPkg, Func: "C17Corrupt", Args: []ArgSpec{ArgStr(base), ArgTmpl(probeT), ArgInt(2), ArgInt(int64(pos)), ArgTmpl("{B}")}})
+						// a two-byte UTF-8 sequence (U+0080..U+07FF: printable non-ASCII letters among them)
+						out = append(out, &Config{ID: fmt.Sprintf("C17/corrupt/%s/%s/ins2@%d", scheme, base, pos), Pkg: zzhPkg, Func: "C17Corrupt", Args: []ArgSpec{ArgStr(base), ArgTmpl(probeT), ArgInt(2), ArgInt(int64(pos)), ArgTmpl("{[\\xc2-\\xdf]}{[\\x80-\\xbf]}")}})
 					}
 				}
 				// routing: versions that other ecosystems accept or order differently
@@ -271,7 +318,7 @@ func init() {
 			return out
 		},
 		Bounds: func(tier string) string {
-			return "single-point corruptions (delete / replace by any ASCII byte / insert any ASCII byte) at every position of 2 (quick) / 3 (thorough) base ranges per scheme; raw ASCII heads, tails and scheme names up to 5 / 6 bytes; routing with 7 discriminating version templates x 3 comparators x 11 schemes; lone '*' not covered"
+			return "single-point corruptions (delete / replace by any byte 0x00-0xff / insert any byte / insert any two-byte UTF-8 sequence) at every position of 2 (quick) / 3 (thorough) base ranges per scheme; raw ASCII heads, tails and scheme names up to 5 / 6 bytes; routing with 7 discriminating version templates x 3 comparators x 11 schemes; lone '*' not covered"
 		},
 		Assume: []string{"mustError in harness/pkg/zzh/vers.go is the spec-side reading of the malformations listed in the property"},
 	})
